@@ -1,10 +1,12 @@
 /- Line-protocol driver: `driver < cmds.txt > model.txt` (core Lean only). -/
 import YorkieModel.Driver.Proto
 import YorkieModel.Driver.TimeEngine
+import YorkieModel.Driver.CrdtEngine
 open Yorkie.Driver
 
 def engines : List (String × Engine) := [
-  ("time", TimeEngine.engine)
+  ("time", TimeEngine.engine),
+  ("crdt", CrdtEngine.engine)
 ]
 
 partial def loop (e : Engine) (h : IO.FS.Stream) (out : IO.FS.Stream) (st : e.State) : IO Unit := do
